@@ -1,0 +1,37 @@
+//go:build verif
+
+package tensor
+
+import "unsafe"
+
+// Pool-event hook for the external verification harness (/verif). Built only with -tags verif.
+
+const (
+	verifBorrowInts = iota
+	verifReturnInts
+)
+
+// VerifPoolHook, when set, is called for every int slice handed out by / given back to the int pools
+// (kind 0 = BorrowInts, 1 = ReturnInts) with the address of its backing array and its capacity.
+var VerifPoolHook func(kind int, addr uintptr, capacity int)
+
+func verifPoolEvent(kind int, is []int) {
+	if VerifPoolHook == nil || cap(is) == 0 {
+		return
+	}
+	is = is[:1]
+	VerifPoolHook(kind, uintptr(unsafe.Pointer(&is[0])), cap(is))
+}
+
+// VerifMetaSlices returns address and capacity of the backing arrays of the five metadata slices of t
+// (shape, strides, shape and strides of the pending-transpose backup, transposeWith); address 0 = nil / empty.
+func VerifMetaSlices(t *Dense) (addrs [5]uintptr, caps [5]int) {
+	for i, s := range [][]int{t.AP.shape, t.AP.strides, t.old.shape, t.old.strides, t.transposeWith} {
+		if cap(s) == 0 {
+			continue
+		}
+		s = s[:1]
+		addrs[i], caps[i] = uintptr(unsafe.Pointer(&s[0])), cap(s)
+	}
+	return
+}
